@@ -3,6 +3,7 @@ use serde_json::Value;
 
 pub mod c01;
 pub mod c02;
+pub mod c03;
 pub mod c16;
 
 pub fn load_case(path: &str) -> Value {
@@ -34,6 +35,7 @@ pub fn dispatch(id: &str, tier: Tier, replay: Option<&str>) {
     match id {
         "c01" => c01::run(tier, replay),
         "c02" => c02::run(tier, replay),
+        "c03" => c03::run(tier, replay),
         "c16" => c16::run(tier, replay),
         _ => {
             eprintln!("unknown check {id}");
